@@ -45,7 +45,8 @@ MUTANTS = {
                         .is_some_and(|count| count > 0)""")], "SETITEMS allowed with an odd number of operands"),
  "c03_newobjex_operands_swapped": (["C03"], [(V, "                    && self.is_tuple_at(1)\n                    && self.is_dict_at(0)", "                    && self.is_tuple_at(0)\n                    && self.is_dict_at(1)")], "NEWOBJ_EX guard has tuple and dict depths swapped"),
  # ---- C04
- "c04_string_quote_not_escaped": (["C04"], [(E, "                    .replace('\\'', \"\\\\'\")\n", "")], "STRING payload: single quotes are not escaped"),
+ "c04_string_backslash_not_escaped": (["C04"], [(E, "                    .replace('\\\\', \"\\\\\\\\\") // backslash must be first\n", "")], "STRING payload: backslashes are not escaped (a trailing one swallows the closing quote's meaning, \\x needs hex digits)"),
+ "benign_string_quote_not_escaped": ([], [(E, "                    .replace('\\'', \"\\\\'\")\n", "")], "STRING payload: an unescaped inner single quote is accepted by pickletools (first/last quote are stripped) - benign for C04 as stated"),
  "c04_binunicode_short_length": (["C04"], [(E, """                self.output.push(BinUnicode.as_u8());
                 self.output
                     .extend_from_slice(&(bytes.len() as u32).to_le_bytes());""", """                self.output.push(BinUnicode.as_u8());
